@@ -5,7 +5,8 @@
    used both as invariants of the implementation-level model (MCFanout) and as
    the oracle of trace validation (FanoutTrace).                              *)
 EXTENDS Integers, Sequences, FiniteSets
-CONSTANTS Pkts,             \* kinds of the packets, in publication order
+CONSTANTS Media,            \* "h264" | "h265" | "flv"
+          Pkts,             \* kinds of the packets, in publication order
           CacheGop,
           ReplayVideoOnly   \* named deviation: the RTP caches keep video-channel packets only
 
@@ -20,15 +21,23 @@ LastOf(k, kind) == IF k = 0 THEN 0 ELSE IF Pkts[k] = kind THEN k ELSE LastOf(k -
    of the most recent key frame onward".  Parameter-set packets that arrive
    after the key frame are part of "the most recent parameter sets" and are not
    repeated in the GOP part (each packet at most once, C01).                   *)
+HdrOrder == CASE Media = "h264" -> <<"sps", "pps">>
+              [] Media = "h265" -> <<"vps", "sps", "pps">>
+              [] OTHER -> <<"meta", "vsh", "ash">>
+HdrKinds == {HdrOrder[i] : i \in 1..Len(HdrOrder)}
 GopAt(k) ==
   LET key == LastOf(k, "key") IN
   IF ~CacheGop \/ key = 0 THEN <<>>
   ELSE SelectSeq([i \in 1..(k - key + 1) |-> key + i - 1],
-                 LAMBDA i : Pkts[i] \notin {"sps", "pps"} /\ (ReplayVideoOnly => Pkts[i] # "aud"))
-ReplayAt(k) ==
-  (IF LastOf(k, "sps") # 0 THEN <<LastOf(k, "sps")>> ELSE <<>>)
-  \o (IF LastOf(k, "pps") # 0 THEN <<LastOf(k, "pps")>> ELSE <<>>)
-  \o GopAt(k)
+                 LAMBDA i : Pkts[i] \notin HdrKinds /\ ((ReplayVideoOnly /\ Media # "flv") => Pkts[i] # "aud"))
+RECURSIVE HdrsAt(_, _)
+HdrsAt(k, n) == IF n > Len(HdrOrder) THEN <<>>
+                ELSE (IF LastOf(k, HdrOrder[n]) # 0 THEN <<LastOf(k, HdrOrder[n])>> ELSE <<>>) \o HdrsAt(k, n + 1)
+ReplayAt(k) == HdrsAt(k, 1) \o GopAt(k)
+(* FLV: "presents the replayed headers with the timestamp of the first replayed media tag so the
+   consumer's timeline starts at zero": position in the packet sequence of the tag whose timestamp
+   the replayed header tags must carry (0: no media tag is replayed, the headers carry time 0)     *)
+HeaderStampAt(k) == IF GopAt(k) = <<>> THEN 0 ELSE GopAt(k)[1]
 
 (* what a consumer that attached "at k" is owed when `upto` packets have been published *)
 Owed(k, upto) == ReplayAt(k) \o [i \in 1..(upto - k) |-> k + i]
@@ -39,6 +48,14 @@ Owed(k, upto) == ReplayAt(k) \o [i \in 1..(upto - k) |-> k + i]
    hi = packets absorbed by the cache when it returned.                         *)
 DeliveredOK(d, lo, hi, upto) ==
   d = <<>> \/ \E k \in lo..hi : IsPrefix(d, Owed(k, upto))
+(* FLV: what a consumer was handed together with the timestamps it saw: live tags carry their own
+   timestamp (1000 * position in this harness), replayed header tags the timestamp of the first
+   replayed media tag                                                                          *)
+TsOK(d, tss, k) ==
+  \A j \in 1..Len(d) : tss[j] = (IF j <= Len(HdrsAt(k, 1)) THEN 1000 * HeaderStampAt(k) ELSE 1000 * d[j])
+DeliveredOKT(d, tss, lo, hi, upto) ==
+  d = <<>> \/ \E k \in lo..hi : IsPrefix(d, Owed(k, upto)) /\ (Media = "flv" => TsOK(d, tss, k))
+
 (* ... and a consumer that was never stopped, on a stream that was never closed,
    once everything has drained, has received ALL of it                          *)
 DeliveredAll(d, lo, hi, upto) ==
